@@ -200,6 +200,7 @@ func (r *SparseReal32Vector) VMULV(a, b *SparseReal32Vector) *SparseReal32Vector
   if n := r.Dim(); a.Dim() != n || b.Dim() != n {
     panic("vector dimensions do not match")
   }
+  zero := NullReal32()
   for it := r.JOINT3_ITERATOR_(a, b); it.Ok(); it.Next() {
     s_r := it.s1
     s_a := it.s2
@@ -208,8 +209,13 @@ func (r *SparseReal32Vector) VMULV(a, b *SparseReal32Vector) *SparseReal32Vector
       s_r = r.AT(it.Index())
     }
     switch {
-    case s_a == nil || s_b == nil:
+    case s_a == nil && s_b == nil:
       s_r.SetFloat32(0.0)
+    case s_a == nil:
+      // a missing entry is a zero, and 0*Inf or 0*NaN is not zero
+      s_r.MUL(zero, s_b)
+    case s_b == nil:
+      s_r.MUL(s_a, zero)
     default:
       s_r.MUL(s_a, s_b)
     }
@@ -236,6 +242,7 @@ func (r *SparseReal32Vector) VMULS(a *SparseReal32Vector, b *Real32) *SparseReal
   if r.Dim() != a.Dim() {
     panic("vector dimensions do not match")
   }
+  zero := NullReal32()
   for it := r.JOINT_ITERATOR_(a); it.Ok(); it.Next() {
     s_r := it.s1
     s_a := it.s2
@@ -243,7 +250,8 @@ func (r *SparseReal32Vector) VMULS(a *SparseReal32Vector, b *Real32) *SparseReal
       s_r = r.AT(it.Index())
     }
     if s_a == nil {
-      s_r.SetFloat32(0.0)
+      // a missing entry is a zero, and 0*Inf or 0*NaN is not zero
+      s_r.MUL(zero, b)
     } else {
       s_r.MUL(s_a, b)
     }
@@ -306,6 +314,7 @@ func (r *SparseReal32Vector) VDIVS(a *SparseReal32Vector, b *Real32) *SparseReal
     r.VdivS(a, b)
     return r
   }
+  zero := NullReal32()
   for it := r.JOINT_ITERATOR_(a); it.Ok(); it.Next() {
     s_r := it.s1
     s_a := it.s2
@@ -313,7 +322,8 @@ func (r *SparseReal32Vector) VDIVS(a *SparseReal32Vector, b *Real32) *SparseReal
       s_r = r.AT(it.Index())
     }
     if s_a == nil {
-      s_r.SetFloat32(0.0)
+      // a missing entry is a zero, and 0/NaN is not zero
+      s_r.DIV(zero, b)
     } else {
       s_r.DIV(s_a, b)
     }
